@@ -2,6 +2,7 @@ import RactorModel.Lemmas.TimersProps
 import RactorModel.Lemmas.TimersDrop
 import RactorModel.Lemmas.TimersDeliver
 import RactorModel.Lemmas.TimersStops
+import RactorModel.Lemmas.TimersBurst
 
 /-!
 # C12 — timers fire once, never early, and die with their target
@@ -76,6 +77,32 @@ theorem exitAfter_fires (ops : List Op) (i : Nat) (τ : Timer) (a : Nat)
     (step s (.fire i)).timers[i]? = some ((τ.attempt s.now).finish .ok s.now) ∧ τ.sentAt = [] ∧
       (step s (.fire i)).target = s.target.stop (.exitAfter (asMillis τ.period)) :=
   exitAfter_fires' (Inv.init.steps ops) i τ a hi hk hp ha hd
+
+/-- `send_interval`, the fire step (schedule-independent: ANY reachable state, the poll may come
+arbitrarily late): a poll of the interval task that is past its first tick (a) before the next tick
+is due changes nothing; (b) with a tick due and a send that fails (target not accepting, or wrong
+message type) makes exactly one attempt, now, and ends the task, leaving the target alone; (c) against
+an accepting target completes ALL `n` elapsed ticks in this one poll — `n` attempts stamped `now`,
+messages `(i, len+1) … (i, len+n)` appended to the mailbox in order, the task still pending — where
+`n` is exactly the number of elapsed ticks: the `(len+n)`-th wheel deadline has passed (or `n = 0`),
+the `(len+n+1)`-th has not. Deadlines are `wheelDeadline armed (k·period)`: computed from the
+instant of the first poll, not from the previous tick — no drift for ANY schedule of polls. -/
+theorem interval_fires (ops : List Op) (i : Nat) (τ : Timer) (a : Nat)
+    (hi : (steps init ops).timers[i]? = some τ) (hk : τ.kind = .interval) (hp : τ.res = .pending)
+    (ha : τ.armed = some a) (hpr : τ.primed = true) :
+    let s := steps init ops
+    ∃ τ', (step s (.fire i)).timers[i]? = some τ' ∧
+    (s.now < wheelDeadline a ((τ.sentAt.length + 1) * τ.period) →
+      τ' = τ ∧ (step s (.fire i)).target = s.target) ∧
+    (wheelDeadline a ((τ.sentAt.length + 1) * τ.period) ≤ s.now → τ.canSend s.target = false →
+      τ' = (τ.attempt s.now).finish .ok s.now ∧ (step s (.fire i)).target = s.target) ∧
+    (τ.canSend s.target = true →
+      ∃ n, τ'.sentAt = τ.sentAt ++ List.replicate n s.now ∧ τ'.res = .pending ∧
+        (step s (.fire i)).target.mbox =
+          s.target.mbox ++ (List.range n).map (fun j => (i, τ.sentAt.length + 1 + j)) ∧
+        s.now < wheelDeadline a ((τ.sentAt.length + n + 1) * τ.period) ∧
+        (n = 0 ∨ wheelDeadline a ((τ.sentAt.length + n) * τ.period) ≤ s.now)) :=
+  interval_fires' (Inv.init.steps ops) i τ a hi hk hp ha hpr
 
 /-- `kill_after`, the fire step: `actor.kill()`. -/
 theorem killAfter_fires (ops : List Op) (i : Nat) (τ : Timer) (a : Nat)
@@ -307,6 +334,12 @@ example : let s := mrun init [.createX .interval 3000, .createX .sendAfter 2000,
     s.timers.map (fun τ => (τ.res, τ.sentAt)) = [(.ok, [3000]), (.err, [3000]), (.pending, [3000, 6000])] ∧
       s.target.handled = [(2, 1, 3000), (2, 2, 6000)] ∧ s.target.closedAt = none := by decide
 
+/-- a LATE poll (small steps, not a quiescent run): the interval armed at 0 is not polled until 10.5 ms —
+ticks 3, 6, 9 ms all complete in that one poll, the 4th (12 ms) is not due -/
+example : let s := steps init [.create .interval 3000, .fire 0, .tick 10500, .fire 0]
+    s.timers.map (fun τ => (τ.res, τ.sentAt)) = [(.pending, [10500, 10500, 10500])] ∧
+      s.target.mbox = [(0, 1), (0, 2), (0, 3)] := by decide
+
 /-- send_interval(0): panicked at the first poll, nothing sent, the target untouched; a later abort changes nothing -/
 example : let s := mrun init [.create .interval 0, .adv 5000, .abort 0]
     s.timers.map (fun τ => (τ.res, τ.sentAt, τ.finAt)) = [(.panicked, [], some 0)] ∧ s.target.exit = none := by decide
@@ -407,6 +440,7 @@ end C12
 #print axioms C12.mistyped_fails_once
 #print axioms C12.delivered_at_most_once
 #print axioms C12.oneShot_handled_once
+#print axioms C12.interval_fires
 #print axioms C12.exitAfter_fires
 #print axioms C12.killAfter_fires
 #print axioms C12.exit_after_stops
